@@ -153,6 +153,9 @@ class Explorer:
             if exc in con.raises:
                 ctx.oblige(f'exc.{exc}.only_if', con.call(con.raises[exc], oldview, tys))
                 ctx.oblige(f'cover.raise.{exc}', z3.BoolVal(True), expect='sat')
+                if exc in con.exc_ensures:
+                    for cname, f in _as_dict(con.call(con.exc_ensures[exc], oldview, tys)).items():
+                        ctx.oblige(f'post@raise.{exc}.{cname}', f)
             else:
                 # an exception the contract does not allow: the path must be infeasible
                 ctx.oblige(f'exc.unexpected.{exc}', z3.BoolVal(False))
